@@ -21,8 +21,8 @@ ASSUMPTIONS = [
   "grammar: vt/cueparse.py (strict SubRip block grammar; WebVTT file/cue/settings grammar and cue-text tokenizer), self-tested",
   "per-character expected styles are the reference interpreter's computed values of the text node's parent (vt/cuecheck.py); "
   "background: the innermost enclosing span whose computed background differs from the default",
-  "SubRip has no escaping: text containing <, { or --> is generated for WebVTT only; for SRT such documents are a labelled class "
-  "in which only 'does not fail' is asserted",
+  "SubRip has no escaping: for SRT, documents whose text contains & < > { } or --> are a labelled class in which only 'does not fail' and "
+  "'no --> inside a payload' are asserted (tags cannot be told from text there)",
   "oblique counts as italic or not (either); line percentages accept either rounding at an exact half; align accepts left/start, right/end synonyms",
   "cue settings are asserted for horizontal writing modes only, and align only for cues made of a single paragraph",
 ]
@@ -124,7 +124,13 @@ def check(case, res):
     res.fail(fmt + ":not-a-string", type(out).__name__)
     return
   if fmt == "srt" and has_markup:
-    return                       # SubRip cannot escape markup characters: only 'does not fail' is asserted
+    # SubRip cannot escape markup characters, so tags cannot be told from text: of the grammar only "no --> inside a payload" is asserted
+    try:
+      cueparse.parse_srt(out, strict_text=False)
+    except cueparse.GrammarError as e:
+      if e.clause == "payload:arrow":
+        res.fail("srt:grammar:payload:arrow:markup-text", "%s in %r" % (e, out[:400]))
+    return
   try:
     if fmt == "srt":
       cues, css = cueparse.parse_srt(out, strict_text=True), None
